@@ -31,7 +31,9 @@ unhex = MG.unhex
 INF = float("inf")
 # finding chain-3-links was repaired in /repo by 33cdc7f (proposed_fixes/C03-chain-further): the model (Model.chain / denote)
 # describes the repaired operators; Model.check_case_legacy + Witness.C03_chain3_legacy_refuted keep the record.
-REPAIRED = {"chain-of-three-comparisons-ignores-earlier-links": "corpus/C03/chain-3-links.json"}
+# finding operand-variable-name-collides was repaired by d91c8d6 (proposed_fixes/C03-operand-attribute-names).
+REPAIRED = {"chain-of-three-comparisons-ignores-earlier-links": "corpus/C03/chain-3-links.json",
+            "operand-attribute-name-from-colliding-caller-variable": "corpus/C03/operand-variable-names.json"}
 COPS = {"<": "CLt", "<=": "CLe", ">": "CGt", ">=": "CGe"}
 
 
@@ -86,6 +88,25 @@ def prog_ends(a):
         return (a["l"], a["r"]) if a["op"] in ("<", "<=") else (a["r"], a["l"])
     lo, hi = prog_ends(a["first"])
     return (lo, a["other"]) if a["op"] in ("<", "<=") else (a["other"], hi)
+
+
+# caller variable names for the two operands of a comparison.  CompoundPrior takes the attribute names of its operands from the
+# caller's variables (retrieve_name); names that are attributes / properties of the compound object collide with them.
+VAR_NAMES = [("sigma", "centre"), ("right", "other"), ("lo", "right"), ("id", "cls"), ("label", "x1"),           # harmless before d91c8d6
+             ("centre", "left"), ("value", "_left"), ("assertions", "hi"), ("lo", "_assertions"),               # colliding before d91c8d6
+             ("name", "priors"), ("prior_count", "x2"), ("_right_name", "_left_name"), ("left", "right")]       # raised when written
+COLLIDING_RIGHT = ("left", "_left")
+COLLIDING_ANY = ("assertions", "_assertions")
+
+
+def gen_named_cmp(rng, npool):
+    l, r = (rng.sample(range(npool), 2) if npool >= 2 else (0, 0))
+    return {"k": "cmp", "op": rng.choice(["<", "<=", ">", ">="]), "l": {"t": "prior", "ref": l}, "r": {"t": "prior", "ref": r},
+            "vars": list(rng.choice(VAR_NAMES))}
+
+
+def colliding_names(v):
+    return bool(v) and (v[1] in COLLIDING_RIGHT or v[0] in COLLIDING_ANY or v[1] in COLLIDING_ANY)
 
 
 def gen_chain(rng, npool, first, n_foreign=0, last_const=None):
@@ -153,14 +174,53 @@ def gen_vector(rng, pool):
             v = flo - rng.choice([2.0 ** -40, 0.25, 3.0])
         elif r < 0.34:
             v = fhi + rng.choice([2.0 ** -40, 0.25, 3.0])
-        elif r < 0.37:
+        elif r < 0.40 and edge_values(lo, hi):
+            v = rng.choice(edge_values(lo, hi))[1]
+        elif r < 0.43:
             v = float("nan")
-        elif r < 0.40:
+        elif r < 0.46:
             v = rng.choice([INF, -INF, 1.5e308, -1.5e308])
         else:
             v = flo + (fhi - flo) * rng.randint(0, 8) / 8.0
         vec.append(v)
     return vec
+
+
+def edge_values(lo, hi):
+    """Values around the two limits of one prior: exactly on, one float step inside / outside, 5e-15 and 1e-13 outside."""
+    out = []
+    if lo > -INF:
+        out += [("on-lower", lo), ("ulp-inside-lower", math.nextafter(lo, INF)), ("ulp-outside-lower", math.nextafter(lo, -INF)),
+                ("5e-15-outside-lower", lo - 5e-15), ("1e-13-outside-lower", lo - 1e-13)]
+    if hi < INF:
+        out += [("on-upper", hi), ("ulp-inside-upper", math.nextafter(hi, -INF)), ("ulp-outside-upper", math.nextafter(hi, INF)),
+                ("5e-15-outside-upper", hi + 5e-15), ("1e-13-outside-upper", hi + 1e-13)]
+    return out
+
+
+def gen_edge_vectors(ctx, pool, k):
+    """k vectors with every value well inside its limits except ONE, which takes an edge value of its prior."""
+    rng = ctx.rng
+    out = []
+    limited = [j for j, s in enumerate(pool) if unhex(s["lo"]) > -INF or unhex(s["hi"]) < INF]
+    for _ in range(k if limited else 0):
+        vec = []
+        for s in pool:
+            lo, hi = unhex(s["lo"]), unhex(s["hi"])
+            mid = unhex(s["mean"]) if "mean" in s else (lo + hi) / 2
+            sig = unhex(s["sigma"]) if "sigma" in s else 1.0
+            flo = lo if lo > -INF else mid - 4 * sig
+            fhi = hi if hi < INF else mid + 4 * sig
+            vec.append(flo + (fhi - flo) * rng.randint(1, 7) / 8.0)
+        j = rng.choice(limited)
+        lo, hi = unhex(pool[j]["lo"]), unhex(pool[j]["hi"])
+        label, v = rng.choice(edge_values(lo, hi))
+        vec[j] = v
+        limit = lo if label.endswith("lower") else hi
+        ctx.hist("edge-vector", "%s, |limit| %s%s" % (label.rsplit("-", 1)[0], "< 64" if abs(limit) < 64 else ">= 64",
+                                                     " (rounds onto the limit)" if ("outside" in label and v == limit) else ""))
+        out.append(vec)
+    return out
 
 
 def hexv(v):
@@ -189,12 +249,21 @@ def gen_cases(ctx, n):
                     s["lo"] = "-inf"
                 if side in ("hi", "both"):
                     s["hi"] = "inf"
+        # limits of large magnitude (where limit +- 1e-14 is the limit itself): shift some priors by an exact amount
+        for sp in prog["pool"]:
+            if rng.random() < 0.15:
+                shift = rng.choice([1024.0, -4096.0, 1048576.0])
+                for key in ("lo", "hi", "mean"):
+                    if key in sp and abs(unhex(sp[key])) < INF:
+                        sp[key] = (unhex(sp[key]) + shift).hex()
         lv = levels_of(prog["root"])
         n_foreign = 1 if rng.random() < 0.06 else 0
         asserts = []
         for _ in range(rng.choice([0, 1, 1, 2, 3])):
             r = rng.random()
-            if r < 0.52:
+            if r < 0.07:
+                a = gen_named_cmp(rng, npool)
+            elif r < 0.52:
                 a = gen_cmp(rng, npool, n_foreign)
             elif r < 0.76:
                 a = gen_chain(rng, npool, gen_cmp(rng, npool, n_foreign), n_foreign)
@@ -209,6 +278,7 @@ def gen_cases(ctx, n):
                 a = {"k": "lit", "v": rng.random() < 0.5}
             asserts.append({"level": rng.choice(lv), "a": a})
         vectors = [[hexv(v) for v in gen_vector(rng, prog["pool"])] for _ in range(4)]
+        vectors += [[hexv(v) for v in vec] for vec in gen_edge_vectors(ctx, prog["pool"], 3)]
         r = rng.random()
         if r < 0.08:
             vectors.append(vectors[0][:-1])                       # too short
@@ -268,6 +338,8 @@ def same_recipe(a, rec, npool):
     if a["k"] == "lit":
         return a["v"] == rec["v"]
     if a["k"] == "cmp":
+        if a.get("vars") != rec.get("vars"):
+            return False
         return a["op"] == rec["op"] and same_operand(expected_operand(a["l"], npool), rec["l"]) \
             and same_operand(expected_operand(a["r"], npool), rec["r"])
     if a["k"] == "native":
@@ -587,7 +659,8 @@ def run(ctx):
                 "random levels (Model, Collection, CompoundPrior attribute; optionally the model is wrapped in a Collection or copy()-ed "
                 "afterwards): simple comparisons, two- and three-link chains via (a<b)<c / (a<b)>c, operands = parameters, constants, "
                 "+ * / - with constants on either side, unary minus / abs, parameters foreign to the model, zero divisors, literal "
-                "True/False, Python-native a<b<c; x vectors inside / exactly on / just outside / far outside limits, NaN, +-inf, "
+                "True/False, Python-native a<b<c; x vectors inside / exactly on / just outside / far outside limits, and for one parameter at a time exactly on, one float step "
+                "inside / outside, 5e-15 and 1e-13 outside a limit (limits of magnitude < 4 and shifted by 1024 / -4096 / 2^20), NaN, +-inf, "
                 "too short / too long, as list and numpy array; unit vectors and random instances for the oracle. Non-trivial: a value "
                 "on/outside a limit (or NaN/inf), or all values inside and at least one assertion evaluated. "
                 "Distinct = distinct (program, assertions, wrap, vector).")
@@ -642,6 +715,7 @@ def run(ctx):
             ctx.failure("oracle", "building the model or its assertions raised %s: %s" % (r["exc"], r.get("msg", "")[-300:]), c)
             continue
         r = r["ok"]
+        classes = []          # no known finding is left: nothing is suppressed
         # ---- two-sided: the live objects are what the program denotes
         problems = []
         if not MG.same_tree(wrap_tree(c, MG.expected_tree(prog["root"])), r["tree"]):
@@ -661,6 +735,8 @@ def run(ctx):
             if ee is not None and (at.get("ends") is None or not (same_operand(ee[0], at["ends"][0]) and same_operand(ee[1], at["ends"][1]))):
                 problems.append("remembered ends of the chain")
             ctx.hist("assertion-shape", {"lit": "literal", "native": "python-native-chain"}.get(a["a"]["k"], "%d-link" % links))
+            if a["a"].get("vars"):
+                ctx.hist("operand-variable-names", "%s %s" % (tuple(a["a"]["vars"]), "colliding" if colliding_names(a["a"]["vars"]) else "harmless"))
             if a["a"]["k"] == "lit" and a["a"]["v"]:
                 continue       # add_assertion(True) is dropped
             attached.append(a)
@@ -676,7 +752,7 @@ def run(ctx):
         if problems:
             ctx.count_case(c, True)
             ctx.failure("correspondence", "the composition/assertion API built different objects than the program denotes (%s)" % ", ".join(problems),
-                        c, classes=[], impl={"attaches": r["attaches"], "levels": r["levels"], "limits": r["limits"]},
+                        c, classes=classes, impl={"attaches": r["attaches"], "levels": r["levels"], "limits": r["limits"]},
                         broken={"kind": "correspondence", "name": "two-sided abstraction"})
             continue
         ctx.hist("wrap", c.get("wrap") or "none")
@@ -720,7 +796,7 @@ def run(ctx):
                 msg = "a numpy vector gives %s, the same list gives %s" % (show(run_["numpy"]), show(s))
             if msg:
                 ctx.oracle["failures"] += 1
-                ctx.failure("oracle", msg, dict(c, vectors=[v], units=[], n_random=0), impl=run_)
+                ctx.failure("oracle", msg, dict(c, vectors=[v], units=[], n_random=0), classes=classes, impl=run_)
             if "paths" in run_:
                 p = run_["paths"]
                 ctx.hist("paths-route", "same verdict as the vector route" if show(p) == show(s) else
@@ -753,7 +829,19 @@ def run(ctx):
             if ur["vec"] is None:
                 continue
             vec = [unhex(x) for x in ur["vec"]]
-            exp_s, exp_i = expected_verdicts(c, attached, vec, lims, npool)
+            _, exp_i = expected_verdicts(c, attached, vec, lims, npool)
+            # the strict route is judged on the values the strict route itself maps the unit vector to (value_for may round
+            # differently when limits are ignored); where that mapping already raises the limit exception, so must the route
+            if ur.get("vec_strict") is not None:
+                exp_s, _ = expected_verdicts(c, attached, [unhex(x) for x in ur["vec_strict"]], lims, npool)
+            elif (ur.get("vec_strict_verdict") or {}).get("v") == "limit" and ur["vec_strict_verdict"].get("fit"):
+                exp_s = ("fit", "limit")
+                ctx.hist("unit-route", "value_for raised the limit exception")
+            else:
+                ctx.oracle["failures"] += 1
+                ctx.failure("oracle", "vector_from_unit_vector raised %s" % show(ur.get("vec_strict_verdict") or {}),
+                            dict(c, vectors=[], units=[u], n_random=0), classes=classes, impl=ur)
+                continue
             s = ur["strict"]
             if exp_s[0] == "not-ok" or exp_i[0] == "error":
                 # outside the guards: the priors hand out numpy floats, whose division by zero gives inf/nan instead of raising
@@ -763,11 +851,11 @@ def run(ctx):
             if not verdict_matches(exp_s, s):
                 ctx.oracle["failures"] += 1
                 ctx.failure("oracle", "instance_from_unit_vector verdict %s, expected %s" % (show(s), exp_s),
-                            dict(c, vectors=[], units=[u], n_random=0), impl=ur)
+                            dict(c, vectors=[], units=[u], n_random=0), classes=classes, impl=ur)
             elif not verdict_matches(exp_i, ur["ignored"]):
                 ctx.oracle["failures"] += 1
                 ctx.failure("oracle", "instance_from_unit_vector(ignore_prior_limits=True) gave %s, expected %s" % (show(ur["ignored"]), exp_i),
-                            dict(c, vectors=[], units=[u]), classes=[], impl=ur)
+                            dict(c, vectors=[], units=[u]), classes=classes, impl=ur)
         # random instances: whatever is returned satisfies limits and assertions
         for rr in r["random"]:
             ctx.oracle["cases"] += 1
@@ -790,12 +878,12 @@ def run(ctx):
                 ctx.hist("random-instance", "checked-%d-of-%d-values" % (len(drawn), npool) if len(drawn) < npool else "checked-all-values")
                 if msg:
                     ctx.oracle["failures"] += 1
-                    ctx.failure("oracle", msg, dict(c, vectors=[], units=[]), impl=rr)
+                    ctx.failure("oracle", msg, dict(c, vectors=[], units=[]), classes=classes, impl=rr)
             elif not (rr["v"] in ("assert", "limit") and rr.get("fit")) and not (
                     rr["v"] == "error" and rr.get("exc") in ("KeyError", "ZeroDivisionError")
                     and (c.get("n_foreign") or "/" in json.dumps(c["asserts"]) + json.dumps(prog["root"]))):
                 ctx.oracle["failures"] += 1
-                ctx.failure("oracle", "random_instance raised %s" % show(rr), dict(c, vectors=[], units=[]), classes=[], impl=rr)
+                ctx.failure("oracle", "random_instance raised %s" % show(rr), dict(c, vectors=[], units=[]), classes=classes, impl=rr)
         if i % 25 == 0:
             ctx.sample({"asserts": c["asserts"], "wrap": c.get("wrap"), "n_priors": npool, "verdicts": [show(x["strict"]) for x in r["runs"]]})
     if os.path.exists(os.path.join(common.COQ, "C03", "Model.vo")):
